@@ -283,7 +283,15 @@ func corpusFiles() []*descriptorpb.FileDescriptorProto {
 	for i, nm := range []string{"descriptor", "type", "new", "interface", "range", "has", "clear", "get", "set", "mutable", "new_field", "which_oneof", "get_unknown", "set_unknown", "is_valid", "proto_methods", "unknown_fields", "size_cache", "state", "reset", "string", "marshal", "unmarshal"} {
 		names.field(nm, int32(i+1), descriptorpb.FieldDescriptorProto_TYPE_INT32, "")
 	}
-	nf.MessageType = append(nf.MessageType, outer.m, empty.m, names.m)
+	// oneofs named like protoreflect.Message methods (renamed by rewriteMessageField since the D10 fix)
+	wn := newMsg("OneofNames", "corpus.nest.OneofNames")
+	ot := wn.oneofDecl("type")
+	wn.member(ot, "type_a", 1, descriptorpb.FieldDescriptorProto_TYPE_INT32, "")
+	wn.member(ot, "type_b", 2, descriptorpb.FieldDescriptorProto_TYPE_STRING, "")
+	or := wn.oneofDecl("range")
+	wn.member(or, "range_a", 3, descriptorpb.FieldDescriptorProto_TYPE_BOOL, "")
+	wn.member(or, "range_m", 4, tMsg, ".corpus.nest.Empty")
+	nf.MessageType = append(nf.MessageType, outer.m, empty.m, names.m, wn.m)
 	files = append(files, nf)
 	return files
 }
